@@ -33,6 +33,10 @@ Lemma gen_depth_guard_agree : model_decode_value_depth_guard = SwitchGen.decode_
 Proof. vm_compute. split; reflexivity. Qed.
 Lemma gen_decimal_exponent_agree : max_decimal_exponent = SwitchGen.max_decimal_exponent /\ SwitchGen.decimal_exponent_guard = true.
 Proof. vm_compute. split; reflexivity. Qed.
+Lemma gen_oneof_conflict_agree : model_create_field_checks_oneof = SwitchGen.create_field_checks_oneof.
+Proof. vm_compute. reflexivity. Qed.
+Lemma gen_leaf_map_dup_agree : model_leaf_map_dup_key_rejected = SwitchGen.leaf_map_dup_key_rejected.
+Proof. vm_compute. reflexivity. Qed.
 Lemma gen_set_value_clears_agree : model_set_value_clears_invalid = SwitchGen.set_value_clears_invalid.
 Proof. vm_compute. reflexivity. Qed.
 
@@ -119,8 +123,9 @@ Qed.
 Lemma float_from_go_safe orc k v : safe (float_from_go orc k v).
 Proof.
   unfold float_from_go. apply safe_bind; auto.
-  - destruct v; cbn; auto; match goal with |- context[match ?c with Some _ => _ | None => _ end] => destruct c end; cbn; auto.
-  - intros a _. destruct k; cbn; auto. destruct (f32_out_of_range (fst a)); cbn; auto.
+  - destruct v; cbn; auto.
+  - intros a _. destruct k; cbn; auto;
+      match goal with |- context[match ?c with Some _ => _ | None => _ end] => destruct c end; cbn; auto.
 Qed.
 
 Lemma scalar_from_go_safe orc k v : safe (scalar_from_go orc k v).
@@ -259,8 +264,10 @@ Section Totality.
     destruct (max_nesting_depth <? d + 1)%N; [exact I|].
     destruct ts as [|t r]; [exact I|].
     assert (G : okish n (obind (if mem_bytes (p_json p) seen then Err "field is already set"%string
+                       else if oneof_conflict p m then Err "conflicts with another member of the same proto oneof"%string
                        else obind (dp (t :: r) m) (fun r0 => Ok (fst r0, snd r0, p_json p :: seen))) k)).
     { destruct (mem_bytes (p_json p) seen); [exact I|].
+      destruct (oneof_conflict p m); [exact I|].
       specialize (Hdp (t :: r) m Hlen).
       destruct (dp (t :: r) m) as [[m' ts']| | |]; cbn in *; auto. }
     destruct t; auto. cbn [obind]. apply Hk. cbn. lia.
@@ -376,10 +383,12 @@ Section Totality.
     { intros d item ts acc Hlen. cbn [map_items]. destruct (has_more me ts); [|cbn; lia].
       tok_step. destruct t; auto.
       destruct item as [k|ref|ref|ref|it|it|pb]; auto.
-      - tok_step. destruct (is_delim t); auto.
+      - destruct (map_get s acc); auto.
+        tok_step. destruct (is_delim t); auto.
         apply safe_bind; auto using map_set_go_value_safe. intros acc' _.
         eapply okish_mono; [|apply Hmp]; lia.
-      - tok_step. destruct t; auto.
+      - destruct (map_get s acc); auto.
+        tok_step. destruct t; auto.
         destruct (lookup e ref) as [[| |prefix opts]|]; auto.
         destruct (option_by_name prefix opts s0); auto. cbn [map_set_value obind].
         eapply okish_mono; [|apply Hmp]; lia.
